@@ -3,7 +3,7 @@ process); what is decided here is the ordering discipline the crash argument res
 import re
 import z3
 from vlib.oblig import obligation, mval
-from vlib import loader, build as B
+from vlib import loader, build as B, actions as A
 from mirsym.engine import Obj, Ref, Inconclusive, ok, err, some, none
 from mirsym import models as M
 
@@ -117,4 +117,145 @@ def c11_1(run):
                     run.prove(f'a broadcast timeout hands back the prepared submission without writing `started` {lab}', p.pc, z3.BoolVal(not ev['write_started']))
     if not any(o[0] == 'Ok' and 'broadcast' in o[1] for o in outcomes):
         raise Inconclusive(f'vacuity: {outcomes}')
+    run.require_reached(*run.cur.reach)
+
+
+# ----------------------------------------------------------------------------------------------------------------- C11-2
+def state_engine():
+    def h_write(ctx):
+        st = ctx.st
+        s = ctx.ex.deref_val(st, ctx.args[0])
+        n = sum(1 for e in st.log if e[0] == 'state_write')
+        okv = z3.Bool(f'state_write_ok_{n}')
+        st.log.append(('state_write', okv, ctx.ex.copy_val(s)))
+        return [(None, M.thunk_future(lambda ex, s2, fut: [(okv, ok(())), (z3.Not(okv), (lambda s3: err(Obj('eyre::Report', kind='error'))))]))]
+    hooks = [(re.compile(r'(^|::)State::write$|submission::<impl at [^>]*>::write$'), h_write),
+             (re.compile(r'^(std::time::)?SystemTime::now$'), lambda ctx: [(None, z3.BitVec('now', 128))])]
+    return loader.load(['astria-sequencer-relayer'], hooks=hooks, scalar_types={'tendermint::block::Height': 64, 'SequencerHeight': 64, 'BlobTxHash': 256, 'relayer::celestia_client::BlobTxHash': 256,
+                                                                            'std::time::SystemTime': 128, 'SystemTime': 128})
+
+
+def _impl_fn(ex, name, self_ty):
+    cands = [n for n in ex.fns if n.endswith('::' + name) and 'closure' not in n and (ex.impl_self(n) or (None, ''))[1].split('<')[0] == self_ty]
+    if len(cands) != 1:
+        raise Inconclusive(f'{self_ty}::{name} not found: {cands}')
+    return cands[0]
+
+
+def _completed(ex, tag):
+    return B.struct(ex, 'CompletedSubmission', celestia_height=z3.BitVec(f'{tag}_celestia_height', 64), sequencer_height=z3.BitVec(f'{tag}_sequencer_height', 64))
+
+
+def _paths(ex):
+    return dict(state_file_path=Obj('StateFilePath', kind='opaque'), temp_file_path=Obj('TempFilePath', kind='opaque'))
+
+
+def _state_fields(ex, p, s):
+    """(variant, {field: value}) of a logged State"""
+    a = ex.adts.lookup('relayer::submission::State')
+    d = s.discr
+    if not isinstance(d, str):
+        dd = z3.simplify(d); d = a['variants'][dd.as_long()]['name'] if z3.is_bv_value(dd) else None
+    out = {}
+    for (vn, idx), v in s.fields.items():
+        if vn == d:
+            out[idx] = ex.deref_val(p, v)
+    return d, out
+
+
+@obligation('C11', 'C11-2 submission state transitions: what is written to the state file and handed on is exactly (confirmed height, in-flight height) as documented; a restart resumes from the last CONFIRMED height')
+def c11_2(run):
+    ex = state_engine()
+    run.bound(heights='all u64', writes='State::write (temp file + rename) is an oracle that succeeds or fails; what is passed to it is checked')
+    run.assume('the file system layer (write temp file, rename) is outside: atomicity of the write itself is not decided')
+    adt = ex.adts.lookup('relayer::submission::State')
+    vnames = [v['name'] for v in adt['variants']]
+    vfields = {v['name']: [f['name'] if isinstance(f, dict) else f for f in v.get('fields', [])] for v in adt['variants']}
+
+    def fld(p, sobj, variant, name):
+        names = vfields[variant]
+        i = names.index(name)
+        return ex.deref_val(p, sobj.fields[(variant, i)])
+
+    def cs(p, o):
+        return B.fld(ex, p, o, 'celestia_height', 'u64'), B.fld(ex, p, o, 'sequencer_height', 'SequencerHeight')
+    # (a) into_prepared
+    f = _impl_fn(ex, 'into_prepared', 'StartedSubmission')
+    last = _completed(ex, 'last'); lc, ls = z3.BitVec('last_celestia_height', 64), z3.BitVec('last_sequencer_height', 64)
+    me = B.struct(ex, 'StartedSubmission', last_submission=last, **_paths(ex))
+    newh, txh = z3.BitVec('new_sequencer_height', 64), z3.BitVec('blob_tx_hash', 256)
+    seen = set()
+    for i, p in enumerate(run.explore(ex, ex.start(f, [me, newh, txh]), poll=True, allow_havoc=(r'^Arguments::|fmt::',))):
+        if p.kind != 'return':
+            run.prove(f'into_prepared: no panic [path {i}]', p.pc, z3.BoolVal(False), detail=p.info); continue
+        kind, r = A.poll_result(p); seen.add(kind)
+        r = ex.deref_val(p, r.fields[('Ok', 0)]) if kind == 'Ok' else r
+        ws = [e for e in p.log if e[0] == 'state_write']
+        run.sample({'fn': 'into_prepared', 'path': i, 'result': kind, 'writes': len(ws)})
+        if kind == 'Ok':
+            s = ws[0][2] if ws else None
+            claim = [z3.BoolVal(len(ws) == 1), z3.UGT(newh, ls)]
+            if ws:
+                d, _ = _state_fields(ex, p, s)
+                claim += [ws[0][1], z3.BoolVal(d == 'Prepared')]
+                if d == 'Prepared':
+                    wl = fld(p, s, 'Prepared', 'last_submission')
+                    claim += [fld(p, s, 'Prepared', 'sequencer_height') == newh, fld(p, s, 'Prepared', 'blob_tx_hash') == txh, cs(p, wl)[0] == lc, cs(p, wl)[1] == ls]
+            claim += [B.fld(ex, p, r, 'sequencer_height', 'SequencerHeight') == newh, B.fld(ex, p, r, 'blob_tx_hash', 'BlobTxHash') == txh,
+                      cs(p, B.fld(ex, p, r, 'last_submission', 'CompletedSubmission'))[0] == lc, cs(p, B.fld(ex, p, r, 'last_submission', 'CompletedSubmission'))[1] == ls]
+            run.prove(f'into_prepared Ok => new height above the confirmed one; `prepared` written once with (new height, unchanged last submission, tx hash); same values handed on [path {i}]', p.pc, z3.And(*claim))
+        else:
+            run.prove(f'into_prepared Err => no successful write [path {i}]', p.pc, z3.And(*[z3.Not(e[1]) for e in ws]) if ws else z3.BoolVal(True))
+    # (b) into_started, (c) revert
+    for name in ('into_started', 'revert'):
+        f = _impl_fn(ex, name, 'PreparedSubmission')
+        me = B.struct(ex, 'PreparedSubmission', sequencer_height=z3.BitVec('prepared_sequencer_height', 64), last_submission=_completed(ex, 'last'), blob_tx_hash=txh, created_at=z3.BitVec('created_at', 128), **_paths(ex))
+        ch = z3.BitVec('confirmed_celestia_height', 64)
+        args = [me, ch] if name == 'into_started' else [me]
+        for i, p in enumerate(run.explore(ex, ex.start(f, args), poll=True, allow_havoc=(r'^Arguments::|fmt::',))):
+            if p.kind != 'return':
+                run.prove(f'{name}: no panic [path {i}]', p.pc, z3.BoolVal(False), detail=p.info); continue
+            kind, r = A.poll_result(p); seen.add(kind)
+            r = ex.deref_val(p, r.fields[('Ok', 0)]) if kind == 'Ok' else r
+            ws = [e for e in p.log if e[0] == 'state_write']
+            run.sample({'fn': name, 'path': i, 'result': kind, 'writes': len(ws)})
+            want = (ch, z3.BitVec('prepared_sequencer_height', 64)) if name == 'into_started' else (lc, ls)
+            if kind == 'Ok':
+                claim = [z3.BoolVal(len(ws) == 1)]
+                if ws:
+                    d, _ = _state_fields(ex, p, ws[0][2])
+                    claim += [ws[0][1], z3.BoolVal(d == 'Started')]
+                    if d == 'Started':
+                        wl = fld(p, ws[0][2], 'Started', 'last_submission')
+                        claim += [cs(p, wl)[0] == want[0], cs(p, wl)[1] == want[1]]
+                rl = B.fld(ex, p, r, 'last_submission', 'CompletedSubmission')
+                claim += [cs(p, rl)[0] == want[0], cs(p, rl)[1] == want[1]]
+                what = 'the confirmed Celestia height with the in-flight sequencer height' if name == 'into_started' else 'the unchanged last confirmed submission'
+                run.prove(f'{name} Ok => `started` written once recording {what}; same values handed on [path {i}]', p.pc, z3.And(*claim))
+            else:
+                run.prove(f'{name} Err => no successful write [path {i}]', p.pc, z3.And(*[z3.Not(e[1]) for e in ws]) if ws else z3.BoolVal(True))
+    # (d) resume height after a restart
+    f = _impl_fn(ex, 'last_completed_sequencer_height', 'SubmissionStateAtStartup')
+    for variant in ('Fresh', 'Started', 'Prepared'):
+        su = Obj('relayer::submission::SubmissionStateAtStartup'); su.discr = variant
+        if variant == 'Fresh':
+            su.fields[('Fresh', 0)] = B.struct(ex, 'FreshSubmission', **_paths(ex))
+        elif variant == 'Started':
+            su.fields[('Started', 0)] = B.struct(ex, 'StartedSubmission', last_submission=_completed(ex, 'last'), **_paths(ex))
+        else:
+            su.fields[('Prepared', 0)] = B.struct(ex, 'PreparedSubmission', sequencer_height=z3.BitVec('prepared_sequencer_height', 64), last_submission=_completed(ex, 'last'), blob_tx_hash=txh,
+                                                  created_at=z3.BitVec('created_at', 128), **_paths(ex))
+        for i, p in enumerate(run.explore(ex, ex.start(f, [B.cell(su)]), allow_havoc=(r'^Arguments::|fmt::',))):
+            if p.kind != 'return':
+                run.prove(f'last_completed_sequencer_height({variant}): no panic', p.pc, z3.BoolVal(False), detail=p.info); continue
+            r = p.result
+            run.sample({'fn': 'last_completed_sequencer_height', 'variant': variant, 'result': r.discr if isinstance(r.discr, str) else str(r.discr)})
+            if variant == 'Fresh':
+                run.prove('restart from `fresh` resumes from no height', p.pc, z3.BoolVal(r.discr == 'None'))
+            else:
+                v = ex.deref_val(p, r.fields.get(('Some', 0))) if r.discr == 'Some' else None
+                run.prove(f'restart from `{variant.lower()}` resumes from the last CONFIRMED sequencer height (never the in-flight one)', p.pc,
+                          z3.And(z3.BoolVal(r.discr == 'Some'), v == ls) if v is not None else z3.BoolVal(False))
+    if 'Ok' not in seen:
+        raise Inconclusive('vacuity')
     run.require_reached(*run.cur.reach)
